@@ -239,6 +239,32 @@ func (e *Exec) publish(st *State, v Value) {
 }
 
 func (e *Exec) dispatch(st *State, fr *Frame, ci *callInfo, retTo ssa.Value, mode int) ([]*State, bool) {
+	if (ci.key == "slices.ContainsFunc" || ci.key == "slices.IndexFunc") && len(ci.args) == 2 && ci.args[1].Fn != nil && isSlice(ci.args[0].T) {
+		// slices.ContainsFunc(s, pred) with a statically known, loop-free,
+		// effect-free predicate: pred is evaluated once on a symbolic element
+		// and the result is "some element satisfies it" (ContainsFunc) or the
+		// least such index (IndexFunc).
+		if body, x, ok := e.summarizePredicate(st, ci.args[1].Fn, ci.args[0]); ok {
+			e.modelled[ci.key+" (predicate summarised)"] = true
+			sl := ci.args[0]
+			el := sl.T.Underlying().(*types.Slice).Elem()
+			arr := e.cur(st, "elem:"+typeKey(el), flatten(el)[0].Sort, true)
+			at := func(i Term) Term {
+				return Term{strings.ReplaceAll(body.S, x.S, Select(Select(arr, sliceBase(sl)), Add(sliceOff(sl), i)).S), SBool}
+			}
+			q := Term{e.freshName("q.cf"), SInt}
+			rng := And(Le(Zero, q), Lt(q, sliceLen(sl)))
+			if ci.key == "slices.ContainsFunc" {
+				r := e.freshConst("containsfunc", SBool)
+				st.assert(Term{fmt.Sprintf("(= %s (exists ((%s Int)) (and %s %s)))", r.S, q.S, rng.S, at(q).S), SBool})
+				return e.afterCall(st, fr, retTo, scalar(tBool, r), mode)
+			}
+			r := e.freshConst("indexfunc", SInt)
+			st.assert(Or(Eq(r, IntLit(-1)), And(Le(Zero, r), Lt(r, sliceLen(sl)), at(r))))
+			st.assert(Term{fmt.Sprintf("(forall ((%s Int)) (=> (and %s (or (= %s (- 1)) (< %s %s))) (not %s)))", q.S, rng.S, r.S, q.S, r.S, at(q).S), SBool})
+			return e.afterCall(st, fr, retTo, scalar(tInt, r), mode)
+		}
+	}
 	if ci.key == "(*sync.Once).Do" && len(ci.args) == 2 && ci.args[1].Fn != nil {
 		// sync.Once: the function runs on the first call only
 		e.modelled["(*sync.Once).Do"] = true
@@ -783,6 +809,75 @@ func (e *Exec) applyContract(st *State, fr *Frame, ci *callInfo, c *FuncContract
 		succ = append(succ, s2...)
 	}
 	return succ
+}
+
+// summarizePredicate evaluates a one-block, effect-free func(T) bool on a fresh
+// symbolic element x and returns its result as a term over x. Anything else
+// (branches, loops, calls that are not pure intrinsics, captured variables) is
+// declined.
+func (e *Exec) summarizePredicate(st *State, f *FnVal, sl Value) (Term, Term, bool) {
+	fn := f.Fn
+	if fn == nil || len(fn.Blocks) != 1 || len(fn.Params) != 1 || len(f.Bind) != 0 || fn.Signature.Results().Len() != 1 {
+		return Term{}, Term{}, false
+	}
+	ls := flatten(fn.Params[0].Type())
+	if len(ls) != 1 {
+		return Term{}, Term{}, false
+	}
+	x := e.freshConst("pred.x", ls[0].Sort)
+	nf := e.newFrame(st, fn, []Value{{T: fn.Params[0].Type(), L: []Term{x}}}, nil)
+	nf.block = fn.Blocks[0]
+	depth := len(st.frames)
+	nTrace := len(st.trace)
+	st.frames = append(st.frames, nf)
+	defer func() { st.frames = st.frames[:depth] }()
+	for {
+		if nf.pc >= len(nf.block.Instrs) {
+			return Term{}, Term{}, false
+		}
+		in := nf.block.Instrs[nf.pc]
+		switch v := in.(type) {
+		case *ssa.Return:
+			if len(v.Results) != 1 || len(st.trace) != nTrace {
+				return Term{}, Term{}, false
+			}
+			r := e.val(nf, v.Results[0])
+			if len(r.L) != 1 || r.L[0].Sort != SBool {
+				return Term{}, Term{}, false
+			}
+			// expand names defined while evaluating the body, so that the
+			// element symbol is visible for substitution
+			body := r.L[0].S
+			for i := 0; i < 8; i++ {
+				changed := false
+				for name, def := range e.defBody {
+					if strings.Contains(def, x.S) && strings.Contains(body, name) {
+						body = strings.ReplaceAll(body, name, def)
+						changed = true
+					}
+				}
+				if !changed {
+					break
+				}
+			}
+			if !strings.Contains(body, x.S) {
+				return Term{}, Term{}, false
+			}
+			return Term{body, SBool}, x, true
+		case *ssa.DebugRef, *ssa.BinOp, *ssa.UnOp, *ssa.Convert, *ssa.ChangeType:
+		case *ssa.Call:
+			sc := v.Call.StaticCallee()
+			if sc == nil || !(strings.HasPrefix(sc.String(), "strings.") || strings.HasPrefix(sc.String(), "unicode.")) {
+				return Term{}, Term{}, false
+			}
+		default:
+			return Term{}, Term{}, false
+		}
+		succ, cont := e.execInstr(st, nf, in)
+		if !cont || len(succ) != 0 || len(st.frames) != depth+1 {
+			return Term{}, Term{}, false
+		}
+	}
 }
 
 // forcedInline: the contract of the function under verification asks for the
